@@ -259,7 +259,9 @@ func checkPair(c PairCase) (err error) {
 	}
 	nerr := nerrDir[0] + nerrDir[1]
 	// all four operators fail or none; and the same in both directions, except beyond the depth limit
-	if nerrDir[0]%4 != 0 || nerrDir[1]%4 != 0 || (!deep && nerrDir[0] != nerrDir[1]) {
+	// (For types outside the property's list of ordered types - sets order by inclusion - nothing is demanded beyond the
+	// depth limit: set < set may decide by length alone while set <= set has to compare an over-deep element and fails.)
+	if (ordered || !deep) && (nerrDir[0]%4 != 0 || nerrDir[1]%4 != 0 || (!deep && nerrDir[0] != nerrDir[1])) {
 		return bad("ordered comparisons fail inconsistently: x<y %v, x<=y %v, x>y %v, x>=y %v, y<x %v, y<=x %v, y>x %v, y>=x %v",
 			xy[iLT], xy[iLE], xy[iGT], xy[iGE], yx[iLT], yx[iLE], yx[iGT], yx[iGE])
 	}
@@ -1065,7 +1067,7 @@ func TestPropPoolStable(t *testing.T) {
 }
 
 func TestPropStable(t *testing.T) {
-	vk.Rapid(t, subStable, vk.N(1500, 12000), func(t *rapid.T) StableCase {
+	vk.Rapid(t, subStable, vk.N(2000, 12000), func(t *rapid.T) StableCase {
 		return StableCase{genValue(3).Draw(t, "x"), rapid.IntRange(0, 9).Draw(t, "gc") == 0}
 	})
 }
@@ -1217,14 +1219,14 @@ func TestPropSeqExhaustive(t *testing.T) {
 // ---------------------------------------------------------------- random generators
 
 func TestPropPairs(t *testing.T) {
-	vk.Rapid(t, subPair, vk.N(12000, 100000), func(t *rapid.T) PairCase {
+	vk.Rapid(t, subPair, vk.N(20000, 100000), func(t *rapid.T) PairCase {
 		x := genValue(3).Draw(t, "x")
 		return PairCase{x, genRelated(t, x, "y")}
 	})
 }
 
 func TestPropTriples(t *testing.T) {
-	vk.Rapid(t, subTriple, vk.N(20000, 200000), func(t *rapid.T) TripleCase {
+	vk.Rapid(t, subTriple, vk.N(30000, 200000), func(t *rapid.T) TripleCase {
 		if rapid.IntRange(0, 2).Draw(t, "numeric") == 0 {
 			// three numbers around one centre, within a few ulps
 			c := genCentre().Draw(t, "centre")
@@ -1253,11 +1255,11 @@ func genSeqCase(t *rapid.T, minmax bool) SeqCase {
 }
 
 func TestPropSort(t *testing.T) {
-	vk.Rapid(t, subSort, vk.N(6000, 60000), func(t *rapid.T) SeqCase { return genSeqCase(t, false) })
+	vk.Rapid(t, subSort, vk.N(8000, 60000), func(t *rapid.T) SeqCase { return genSeqCase(t, false) })
 }
 
 func TestPropMinMax(t *testing.T) {
-	vk.Rapid(t, subMinMax, vk.N(6000, 60000), func(t *rapid.T) SeqCase { return genSeqCase(t, true) })
+	vk.Rapid(t, subMinMax, vk.N(8000, 60000), func(t *rapid.T) SeqCase { return genSeqCase(t, true) })
 }
 
 func TestReplay(t *testing.T) { vk.Replay(t) }
